@@ -151,7 +151,7 @@ def run(ctx: vlib.Ctx):
         ctx.coqchk()
     scratch = ctx.mkscratch()
     corpus = json.loads((vlib.VERIF / "corpus" / "C02.json").read_text())
-    n_prog = 40 if ctx.quick else 400
+    n_prog = 40 if ctx.quick else 300
     n_inp = 3 if ctx.quick else 5
     progs = [(c["src"], c.get("specs") or []) for c in corpus]
     for s in G.SEED_PROGRAMS:
